@@ -386,7 +386,12 @@ func (self *RemoteJobManager) checkQueue(ids []string, ctx context.Context) ([]s
 	if err != nil {
 		return ids, stderr.String()
 	}
-	return strings.Split(string(output), "\n"), stderr.String()
+	lines := strings.Split(string(output), "\n")
+	for i, line := range lines {
+		// ps, for one, pads the column of ids.
+		lines[i] = strings.TrimSpace(line)
+	}
+	return lines, stderr.String()
 }
 
 func (self *RemoteJobManager) hasQueueCheck() bool {
